@@ -26,7 +26,9 @@ FAMILIES = ["gauss_cov_scalar", "gauss_cov_vec", "gauss_cov_full", "gauss_prec_f
             "uniform", "cauchy", "mhn", "gauss_sqrtprec_lower", "gauss_sqrtprec_full", "gauss_sqrtcov_upper",
             "gauss_sqrtcov_full", "gauss_prec_vec", "gauss_geom_cont1d", "gauss_geom_image2d", "normal_geom_cont1d",
             "gamma_geom_discrete", "gauss_scalar_mean_geom", "gauss_scalar_all", "normal_scalar_geom", "gamma_scalar_geom",
-            "laplace_scalar_geom", "uniform_scalar_geom", "gmrf_order0", "gmrf_order2", "gmrf2d_order0", "gmrf2d_order2", "gauss_sqrtprec_full_forder", "gauss_sqrtprec_sparse_bidiag", "gauss_mean_cuqiarray", "gmrf_mean_cuqiarray",
+            "laplace_scalar_geom", "uniform_scalar_geom", "gauss_sqrtcov_scalar", "gauss_sqrtcov_vec", "gauss_sqrtcov_diagmat",
+            "gauss_sqrtprec_vec", "gauss_sqrtprec_diagmat", "gauss_sqrtprec_scalar", "gauss_cov_diagmat", "gauss_prec_scalar",
+            "gauss_sparse_cov_tridiag", "gauss_sparse_prec_tridiag", "gauss_sparse_sqrtprec_diag", "gmrf_order0", "gmrf_order2", "gmrf2d_order0", "gmrf2d_order2", "gauss_sqrtprec_full_forder", "gauss_sqrtprec_sparse_bidiag", "gauss_mean_cuqiarray", "gmrf_mean_cuqiarray",
             "user_defined_gauss"]
 
 
@@ -75,6 +77,30 @@ def build_dist(rec):
     if fam in ("gmrf2d_order0", "gmrf2d_order2"):
         import cuqi
         return D.GMRF(np.zeros(16), 1.3, bc_type="zero", order=int(fam[-1]), geometry=cuqi.geometry.Image2D((4, 4)))
+    if fam == "gauss_sqrtcov_scalar":
+        return D.Gaussian(mean, sqrtcov=0.8)
+    if fam == "gauss_sqrtcov_vec":
+        return D.Gaussian(mean, sqrtcov=np.linspace(0.5, 1.5, n))
+    if fam == "gauss_sqrtcov_diagmat":
+        return D.Gaussian(mean, sqrtcov=np.diag(np.linspace(0.5, 1.5, n)))
+    if fam == "gauss_sqrtprec_vec":
+        return D.Gaussian(mean, sqrtprec=np.linspace(0.5, 1.5, n))
+    if fam == "gauss_sqrtprec_diagmat":
+        return D.Gaussian(mean, sqrtprec=np.diag(np.linspace(0.5, 1.5, n)))
+    if fam == "gauss_sqrtprec_scalar":
+        return D.Gaussian(mean, sqrtprec=1.3)
+    if fam == "gauss_cov_diagmat":
+        return D.Gaussian(mean, np.diag(np.linspace(0.5, 2.0, n)))
+    if fam == "gauss_prec_scalar":
+        return D.Gaussian(mean, prec=1.7)
+    if fam in ("gauss_sparse_cov_tridiag", "gauss_sparse_prec_tridiag"):
+        n2 = max(n, 3)
+        T = sps.diags([2.0 * np.ones(n2), -0.6 * np.ones(n2 - 1), -0.6 * np.ones(n2 - 1)], [0, 1, -1]).tocsc()
+        mu = np.random.RandomState(z).randn(n2)
+        return D.Gaussian(mu, T) if fam.endswith("cov_tridiag") else D.Gaussian(mu, prec=T)
+    if fam == "gauss_sparse_sqrtprec_diag":
+        n2 = max(n, 2)
+        return D.Gaussian(np.random.RandomState(z).randn(n2), sqrtprec=sps.diags(np.linspace(0.5, 1.5, n2)))
     if fam == "gauss_scalar_mean_geom":
         return D.Gaussian(0.5, np.linspace(0.5, 2.0, n), geometry=n)        # scalar mean broadcast over the geometry
     if fam == "gauss_scalar_all":
